@@ -45,14 +45,14 @@ func init() {
 					x.Label = strconv.FormatFloat(float64(rapid.IntRange(0, 8).Draw(rt, "supv"))/8, 'f', -1, 64)
 				}
 			}
-			return &NNICase{Tree: m.Newick(), Moves: genOps(rt, rootMoves, 0, 4), Pattern: rapid.SliceOfN(rapid.IntRange(0, 7), 1, 8).Draw(rt, "pattern"),
+			return &NNICase{Tree: m.Newick(), Moves: genOps(rt, rootMoves, 0, 4), Pattern: rapid.SliceOfN(rapid.IntRange(0, 15), 1, 8).Draw(rt, "pattern"),
 				Collect: rapid.IntRange(0, 2).Draw(rt, "collect") == 0}
 		},
 		New:       func() any { return &NNICase{} },
 		Exec:      execC17,
 		Real:      []string{"tree.NNIRearranger.Rearrange", "nni.Apply / Undo", "Tree.Reroot / RerootOutGroup / RerootMidPoint / UnRoot / RemoveSingleNodes", "Newick writer"},
 		Simulated: []string{"the history of root moves before the enumeration", "the apply/undo pattern inside the callback", "global math/rand seam seeded per step"},
-		Expected:  []string{"rooted", "unrooted", "root-moved", "apply-twice", "undo-twice", "collected-then-applied", "applied-inside-callback", "nni-command", "nni-command-several-trees"},
+		Expected:  []string{"rooted", "unrooted", "root-moved", "apply-twice", "undo-twice", "collected-then-applied", "applied-inside-callback", "nni-command", "nni-command-several-trees", "nested-enumeration"},
 	})
 }
 
@@ -226,6 +226,23 @@ func execC17(t *testing.T, cc any, o *Outcome) {
 				return false
 			}
 			seen[key] = nprop
+			if pat&8 != 0 && ntips <= 14 {
+				// a second enumeration started while the first one is in progress (what a hill-climbing search does): it must see
+				// a binary tree with the same number of eligible branches and leave it unchanged
+				o.Probe("nested-enumeration")
+				inner := 0
+				(&tree.NNIRearranger{}).Rearrange(tr, func(r2 tree.Rearrangement) bool {
+					inner++
+					if r2.Apply() != nil || r2.Undo() != nil {
+						inner = -1 << 20
+					}
+					return true
+				})
+				if inner != 2*nbranches || tr.Newick() != after {
+					o.Fail("nni:nested-enumeration", "proposal %d: an enumeration nested in the callback makes %d proposals (%d expected) or changes the tree\n%s\nbefore nested %s\nafter nested  %s", nprop, inner, 2*nbranches, ctx(), after, safeText(tr))
+					return false
+				}
+			}
 			if err := re.Undo(); err != nil {
 				o.Fail("nni:undo-error", "proposal %d: Undo fails: %v\n%s", nprop, err, ctx())
 				return false
